@@ -130,6 +130,7 @@ func drawC05(t *rapid.T) C05Case {
 		Unicode:   rapid.IntRange(0, 5).Draw(t, "unicode") == 0,
 		WideDates: true,
 	}
+	gen.MaybeLarge(t, &cfg, 40)
 	j := gen.GenJournal(t, cfg)
 	wide := rapid.IntRange(0, 7).Draw(t, "wide") == 0
 	if wide {
